@@ -120,6 +120,22 @@ func readOnlyUseX9(v ssa.Value, depth int) bool {
 	return true
 }
 
+// readOnlyArgX9: v (the address of a table) is an argument of a static call of a module function
+// whose parameter in that place is only read through (indexed, ranged over, measured, its elements
+// loaded); the call cannot change the table and keeps no way to.
+func readOnlyArgX9(c *Ctx, call *ssa.Call, v ssa.Value) bool {
+	fn := call.Call.StaticCallee()
+	if fn == nil || call.Call.Value == v || !c.inModule(fn) || len(fn.Blocks) == 0 || len(fn.Params) != len(call.Call.Args) {
+		return false
+	}
+	for i, a := range call.Call.Args {
+		if a == v && !readOnlyUseX9(fn.Params[i], 1) {
+			return false
+		}
+	}
+	return true
+}
+
 // readOnlyValueX9: a value read out of a table cannot be used to write into the table.
 func readOnlyValueX9(v ssa.Value, depth int) bool {
 	switch v.Type().Underlying().(type) {
@@ -251,6 +267,10 @@ func (c *Ctx) isConstTableX9(g *ssa.Global) bool {
 						ok = false
 					}
 				case *ssa.DebugRef:
+				case *ssa.Call:
+					if !readOnlyArgX9(c, x, g) {
+						ok = false
+					}
 				default:
 					ok = false
 				}
@@ -348,6 +368,11 @@ func (c *Ctx) literalAtX9(ev *ssaEval, uses map[ssa.Value][]ssa.Instruction, ptr
 					return sv{}, false
 				}
 			case *ssa.DebugRef:
+			case *ssa.Call:
+				// the table is handed to a function that only reads it (another table derived from it)
+				if !readOnlyArgX9(c, x, ptr) {
+					return sv{}, false
+				}
 			default:
 				return sv{}, false
 			}
@@ -498,7 +523,9 @@ func (c *Ctx) pdfLengthsEvalX9(f *ssa.Function, cwT *types.TypeName, cwField str
 	}
 	bad := ""
 	ev.noInline = func(fn *ssa.Function) bool {
-		return fn.Signature.Recv() != nil || fn == newE
+		// exported methods (the writers' Write and Close) are modelled; an unexported method is a
+		// piece of the function under evaluation that was given a receiver
+		return fn.Signature.Recv() != nil && (fn.Object() == nil || fn.Object().Exported()) || fn == newE
 	}
 	ev.load = func(ld *ssa.UnOp, addr sv) (sv, bool) {
 		if i := strings.LastIndex(addr.s, "."); i > 0 && addr.s[i+1:] == cwField && isFieldAddr(ld.X, cwT, cwField) {
@@ -543,7 +570,8 @@ func (c *Ctx) pdfLengthsEvalX9(f *ssa.Function, cwT *types.TypeName, cwField str
 			return sv{k: svNil}, true
 		case sc != nil && c.inModule(sc) && sc.Signature.Recv() != nil && sc.Signature.Params().Len() == 0 && returnsError(sc) && sc.Signature.Results().Len() == 1:
 			return sv{k: svNil}, true // a validation of the font: the table describes a font the writer accepts
-		case sc != nil && c.inModule(sc) && sc.Signature.Recv() != nil && strings.HasSuffix(sc.Signature.Results().String(), "fontInfo)"):
+		case sc != nil && c.inModule(sc) && sc.Signature.Recv() != nil && sc.Signature.Results().Len() == 1 && isPtrToModStructX9(c, sc.Signature.Results().At(0).Type()):
+			// a method that builds a structure of the package (the data the templates are run on)
 			return sv{k: svAddr, s: "info"}, true
 		}
 		return sv{}, false
@@ -605,6 +633,20 @@ func (c *Ctx) pdfLengthsEvalX9(f *ssa.Function, cwT *types.TypeName, cwField str
 		return false, "the second length " + why + " (expected: lead bytes, encrypted part and the rest flushed by Close)"
 	}
 	return true, ""
+}
+
+// isPtrToModStructX9: t is a pointer to a named struct type declared in the module.
+func isPtrToModStructX9(c *Ctx, t types.Type) bool {
+	pt, ok := t.Underlying().(*types.Pointer)
+	if !ok {
+		return false
+	}
+	nt, ok := pt.Elem().(*types.Named)
+	if !ok || nt.Obj().Pkg() == nil || !strings.HasPrefix(nt.Obj().Pkg().Path(), modPath) {
+		return false
+	}
+	_, isStruct := nt.Underlying().(*types.Struct)
+	return isStruct
 }
 
 // ---- W-LEADBYTES on the evaluator
